@@ -186,6 +186,29 @@ def _gen_migdep(rng):
                     initial=True)}}}
         else:
             evo = {'label': a + '_x1', 'mutations': [add], 'deps': {}}
+        if not move and rng.random() < 0.4:
+            # two pending evolutions of one app on either side of the
+            # migration; the first one lowers to no SQL at all (a rename
+            # that keeps its column), so its batch has nothing to execute
+            if rng.random() < 0.5:
+                ren = {'op': 'RenameField', 'model': 'Item', 'old': 'a',
+                       'new': 'a2', 'db_column': 'a'}
+                t['fields'][0] = {'name': 'a2', 'kind': 'Integer',
+                                  'attrs': {'null': True, 'db_column': 'a'}}
+            else:
+                # ... or is filtered out altogether: it adds a field to a
+                # model that is itself new in this release
+                ren = {'op': 'AddField', 'model': 'Part',
+                       'field': intf('p1')}
+                target.append({'name': 'Part', 'fields': [
+                    intf('b'), intf('p1')], 'meta': {}})
+            e0 = {'label': a + '_w0', 'mutations': [ren],
+                  'deps': {'BEFORE_MIGRATIONS': [['vc', tgt]]}}
+            evo['deps']['AFTER_MIGRATIONS'] = [['vc', tgt]]
+            app['steps'] = [{'evos': [e0, evo], 'target': target}]
+            project['apps'][a] = app
+            expect.append(['AFTER_MIGRATIONS', a, evo['label'], tgt])
+            continue
         step = {'evos': [evo], 'target': target}
         if per_app:
             step['app_deps'] = {kind: [['vc', tgt]]}
@@ -239,8 +262,9 @@ def _exec_migdep(scn, res, stats, viols):
         missing = [list(x) for x in (evo_start, evo_end, mig_start, mig_end)
                    if seq.count(x) != 1]
         if missing:
-            viols.append(violation('C09.unit_missing', unit=missing[0],
-                                   **detail))
+            viols.append(violation(
+                'C09.unit_twice' if seq.count(tuple(missing[0])) > 1
+                else 'C09.unit_missing', unit=missing[0], **detail))
             continue
         if kind == 'AFTER_MIGRATIONS':
             ok = seq.index(mig_end) < seq.index(evo_start)
@@ -248,6 +272,20 @@ def _exec_migdep(scn, res, stats, viols):
             ok = seq.index(evo_end) < seq.index(mig_start)
         if kind == 'AFTER_MIGRATIONS':
             stats['after_pending_migration'] = 1
+            # statement level: nothing touches the app's table before the
+            # migration it must follow has been applied
+            early = None
+            for e in r.events:
+                if e['t'] == 'sig' and e['name'] == 'applied_migration' \
+                        and tuple(e['p']['migration']) == ('vc', mig):
+                    break
+                if e['t'] == 'sql' and e['k'] == 'write' and \
+                        not e.get('book') and '"%s_item"' % a in e['sql']:
+                    early = e['sql'][:100]
+                    break
+            if early:
+                ok = False
+                detail['early_statement'] = early
         if not ok:
             viols.append(violation(
                 'C09.migration_precedence_violated', dep=kind,
